@@ -161,29 +161,35 @@ func boolKeys(m map[string]int) map[string]bool {
 // fieldsStoredNil: fields of the receiver-typed struct that the function sets to nil (SSA stores of a nil constant).
 func fieldsStoredNil(f *ssa.Function, of *types.Named) map[string]int {
 	out := map[string]int{}
-	instrs(f, func(in ssa.Instruction) {
-		fv, base, val := storeField(in)
-		if fv == nil || !isNilConst(val) {
-			return
-		}
-		if nt := namedOf(base.Type()); nt != nil && nt.Obj() == of.Obj() {
-			out[fv.Name()]++
-		}
-	})
+	// function literals (a deferred restore) and transparent helpers belong to the function
+	for _, g := range bodyFuncs(f, true) {
+		instrs(g, func(in ssa.Instruction) {
+			fv, base, val := storeField(in)
+			if fv == nil || !isNilConst(val) {
+				return
+			}
+			if nt := namedOf(base.Type()); nt != nil && nt.Obj() == of.Obj() {
+				out[fv.Name()]++
+			}
+		})
+	}
 	return out
 }
 
 // fieldsStoredNonNil: fields of the struct stored with a non-constant value (restores).
 func fieldsStoredNonNil(f *ssa.Function, of *types.Named) map[string]int {
 	out := map[string]int{}
-	instrs(f, func(in ssa.Instruction) {
-		fv, base, val := storeField(in)
-		if fv == nil || isNilConst(val) {
-			return
-		}
-		if nt := namedOf(base.Type()); nt != nil && nt.Obj() == of.Obj() {
-			out[fv.Name()]++
-		}
-	})
+	// function literals (a deferred restore) and transparent helpers belong to the function
+	for _, g := range bodyFuncs(f, true) {
+		instrs(g, func(in ssa.Instruction) {
+			fv, base, val := storeField(in)
+			if fv == nil || isNilConst(val) {
+				return
+			}
+			if nt := namedOf(base.Type()); nt != nil && nt.Obj() == of.Obj() {
+				out[fv.Name()]++
+			}
+		})
+	}
 	return out
 }
